@@ -13,11 +13,13 @@ import (
 	"sync"
 	texttemplate "text/template"
 	"text/template/parse"
+	"time"
 
 	"github.com/goatcms/goatcore/filesystem"
 	"github.com/goatcms/goatcore/filesystem/filespace/memfs"
 	"github.com/goatcms/goatcore/goathtml/ghprovider"
 	"github.com/goatcms/goatcore/goattext/gtprovider"
+	wdog "verifharness/wd"
 )
 
 func init() {
@@ -114,7 +116,8 @@ func cmdTplCases(args []string) error {
 	}
 	sc := bufio.NewScanner(f)
 	sc.Buffer(make([]byte, 1<<20), 1<<24)
-	for sc.Scan() {
+	hangs := 0
+	for sc.Scan() && hangs < 3 { // (every hanging request costs its watchdog: three are evidence enough)
 		line := sc.Text()
 		if !strings.Contains(line, "\\\"k\\\":\\\"tpl\\\"") {
 			continue
@@ -144,7 +147,9 @@ func cmdTplCases(args []string) error {
 		for i, rq := range c.Reqs {
 			var h handedTpl
 			var rerr error
-			func() {
+			reqDone := make(chan struct{})
+			go func() {
+				defer close(reqDone)
 				defer func() {
 					if r := recover(); r != nil {
 						rerr = fmt.Errorf("panic: %v", r)
@@ -198,6 +203,18 @@ func cmdTplCases(args []string) error {
 					}
 				}
 			}()
+			select {
+			case <-reqDone:
+			case <-wdog.After(10 * time.Second):
+				// a request that never returns (a lock left behind by an earlier, failing request ...): the goroutine is
+				// abandoned, the history ends here
+				fail("hang:request", inner, fmt.Sprintf("request %d %+v did not return within 10 s (earlier requests of this history: %+v)", i, rq, c.Reqs[:i]))
+				ok = false
+				hangs++
+			}
+			if !ok {
+				break
+			}
 			if c.Want[i]["N1"] == "ERR" {
 				// the layout does not load: the request must fail, the first time and every time
 				if rerr == nil {
@@ -389,7 +406,14 @@ func cmdTplRace(args []string) error {
 			}(i)
 		}
 		close(start)
-		wg.Wait()
+		allDone := make(chan struct{})
+		go func() { wg.Wait(); close(allDone) }()
+		select {
+		case <-allDone:
+		case <-wdog.After(30 * time.Second):
+			bad(fmt.Sprintf("trial %d: the %d concurrent callers did not all return within 30 s", t, *g))
+			t = *trials // the abandoned goroutines keep the provider: stop here
+		}
 	}
 	b, _ := json.Marshal(map[string]interface{}{"trials": *trials, "goroutines": *g, "mismatches": mismatches, "first": first})
 	fmt.Println(string(b))
